@@ -119,7 +119,13 @@ def exactness(f, node, depth=0):
     if k == "bin" and n.get("op") in ("+", "-", "*", "/", "<<", "%"):
         a, b = exactness(f, n["l"], depth), exactness(f, n["r"], depth)
         if n["op"] in ("+", "-", "*", "<<"):
-            return "INT" if a == "INT" and b == "INT" else "INEXACT"
+            if a == "INT" and b == "INT":
+                return "INT"
+            # integer arithmetic: floor(x/y) +- k is still exact integer arithmetic on the floored quotient; only scaling a
+            # truncated quotient (x/y*z) loses the remainder
+            if tw[:1] in ("i", "u") and n["op"] in ("+", "-") and {a, b} == {"QUOT", "INT"}:
+                return "QUOT"
+            return "INEXACT"
         if n["op"] == "/":
             # integer division truncates: the quotient is exact only as the LAST step (floor of the real quotient)
             return "QUOT" if a == "INT" and b == "INT" else "INEXACT"
